@@ -22,5 +22,32 @@ def run(ctx):
     )
 
 
+    # the first sentence of the property on real parses: programs over the public ParserState operations (C03's driver), run
+    # through pest::state; the Pairs of every successful run are walked in full (balanced tokens, nesting, ordering, boundaries)
+    ok, out, bindir, _ = cargo_build("default", ["drv_prog"])
+    if not ok:
+        ctx.violation({"obligation": "harness does not build against /repo", "log": out[-2000:]}, no_input=True)
+        return
+    c = correspond("parses", os.path.join(bindir, "drv_prog"), ["gen", ctx.tier, str(ctx.seed)], "prog", os.path.join(ctx.rundir, "parses"))
+    if c.error:
+        ctx.violation({"correspondence": c.name, "error": c.error}, no_input=True)
+        return
+    bad = [t for t in c.oracle_fail if "token stream of a successful parse" in t[3] or "left tokens" in t[3] or "balanced pair" in t[3] or "emitted tokens of its own" in t[3]]
+    if bad:
+        i, op, imp, verdict = min(bad, key=lambda t: (len(t[1]), t[1]))
+        ctx.violation({"kind": "a parse built from the public ParserState operations yields a token stream that is not a well-formed tree", "leg": "parses",
+                       "case": op[:6000], "impl": imp[:1500], "oracle": verdict[:1500], "failing_cases_in_run": len(bad)})
+    ev_path = os.path.join(EVIDENCE, f"{ctx.prop}.json")
+    ev = json.load(open(ev_path))
+    ev["coverage"]["distribution"]["parses"] = {"programs": c.n, "successful_parses_walked": c.stats.get("result_ok", c.stats.get("observed", {}).get("result_ok") if isinstance(c.stats.get("observed"), dict) else None), "ill_formed": len(bad)}
+    ev["coverage"]["evaluations"] += c.n
+    ev["violations"] = len(ctx.violations)
+    ev["wall_s"] = round(time.time() - ctx.t0, 2)
+    json.dump(ev, open(ev_path, "w"), indent=1)
+
+
 def replay(ctx, path):
+    r = json.load(open(path))
+    if r.get("leg") == "parses":
+        return replay_generic(ctx, path, "drv_prog", "prog")
     return replay_generic(ctx, path, DRV, MODE, featureset="pretty")
